@@ -201,6 +201,10 @@ class Engine:
 
     def finish(self, st, out, node):
         c = self.c
+        for p_ in getattr(st, "rebound", ()):
+            if "@caller:" + p_ in st.env:
+                st.env["@local:" + p_] = st.env[p_]
+                st.env[p_] = st.env["@caller:" + p_]
         pre, post = NS(self.pre_env), NS(st.env)
         if out.kind in ("normal", "return"):
             res = out.value if out.kind == "return" and out.value is not None else PyNone()
@@ -308,7 +312,7 @@ class Engine:
         if isinstance(s, ast.Assign):
             v = self.eval(s.value, cx)
             for tgt in s.targets:
-                self.assign(tgt, v, cx)
+                self.assign(tgt, v, cx, rebind=True)
             return [(st, Outcome("normal"))]
         if isinstance(s, ast.AugAssign):
             cur = self.eval(_as_load(s.target), cx)
@@ -530,10 +534,12 @@ class Engine:
         return old.ty.fresh(hint)
 
     # ---- assignment -------------------------------------------------------------
-    def assign(self, tgt, v, cx):
+    def assign(self, tgt, v, cx, rebind=False):
+        """rebind=True: a statement of the verified function binds the name (x = ...);
+        rebind=False: the engine writes back the new state of the SAME object after a mutation"""
         st = cx.st
         if isinstance(tgt, ast.Name):
-            if tgt.id in self.c.params and tgt.id not in getattr(st, "rebound", ()) and tgt.id in st.env:
+            if rebind and tgt.id in self.c.params and tgt.id not in getattr(st, "rebound", ()) and tgt.id in st.env:
                 # a parameter NAME is rebound: the caller's object can no longer be reached through it.
                 # What was done to it so far is checked against the frame now.
                 cur, old = st.env[tgt.id], self.pre_env.get(tgt.id)
@@ -541,11 +547,15 @@ class Engine:
                         and not cur.ident(old):
                     self.emit(f"frame:before-rebind:{tgt.id}", "frame", st, cur.same(old), getattr(tgt, "lineno", 0))
                 st.rebound = getattr(st, "rebound", set()) | {tgt.id}
+                # postconditions speak about the CALLER's object: its state is frozen at the moment the name
+                # is rebound (later mutations through the name reach a different object, or -- if the new
+                # value happens to alias the old one -- are not credited: conservative)
+                st.env["@caller:" + tgt.id] = cur
             st.env[tgt.id] = v
         elif isinstance(tgt, (ast.Tuple, ast.List)):
             items = self.unpack(v, len(tgt.elts), cx)
             for t_, x in zip(tgt.elts, items):
-                self.assign(t_, x, cx)
+                self.assign(t_, x, cx, rebind=rebind)
         elif isinstance(tgt, ast.Attribute):
             obj = self.eval(tgt.value, cx)
             if isinstance(obj, PyRec):
